@@ -4,8 +4,8 @@ export GOFLAGS=-mod=mod GOPROXY=off GOSUMDB=off GOTOOLCHAIN=local
 W=$1; P=$2; shift 2
 cd $W || exit 2
 git checkout -q -- . 
-a=$(go test -count=1 -tags verif "$@" ./... 2>&1 | grep -v "no test files" | grep -c "^FAIL\|^---.*FAIL\|^panic")
+a=$(go test -count=1 -tags verif "$@" ./... 2>&1 | grep -av "no test files" | grep -ac "^FAIL\|^---.*FAIL\|^panic")
 git apply $P || exit 2
-b=$(go test -count=1 -tags verif "$@" ./... 2>&1 | grep -v "no test files" | grep -c "^FAIL\|^--- FAIL\|^panic\|DATA RACE")
+b=$(go test -count=1 -tags verif "$@" ./... 2>&1 | grep -av "no test files" | grep -ac "^FAIL\|^--- FAIL\|^panic\|DATA RACE")
 git checkout -q -- .
 echo "$(basename $W) $(basename $P): failing-lines without=$a with=$b  => $([ "$a" = 0 ] && [ "$b" != 0 ] && echo CONFIRMED || echo NOT-CONFIRMED)"
